@@ -49,15 +49,17 @@ const day0 = int64(1699920000) // 2023-11-14T00:00:00Z; every case lives between
 
 // Conc is the concretisation of one abstract database.
 type Conc struct {
-	M       map[string]string `json:"atoms"`
-	StepSec int64             `json:"step_seconds"`
-	B0      int64             `json:"bucket0_start_s"`
-	MidNs   int64             `json:"interior_instant_offset_ns"`
-	Step    int               `json:"ticks_per_bucket"`
-	UnitKey string            `json:"num_label_key"`
-	UnitStr string            `json:"num_label_unit"`
-	Pushes  []interface{}     `json:"pushes"`
-	sizes   []int             // stored payload length per profile (1-based index - 1)
+	M           map[string]string `json:"atoms"`
+	StepSec     int64             `json:"step_seconds"`
+	B0          int64             `json:"bucket0_start_s"`
+	MidNs       int64             `json:"interior_instant_offset_ns"`
+	Step        int               `json:"ticks_per_bucket"`
+	UnitKey     string            `json:"num_label_key"`
+	UnitStr     string            `json:"num_label_unit"`
+	WithMapping bool              `json:"locations_have_a_mapping"`
+	SplitUnit   bool              `json:"unit_samples_of_later_profiles_carry_a_string_label"`
+	Pushes      []interface{}     `json:"pushes"`
+	sizes       []int             // stored payload length per profile (1-based index - 1)
 }
 
 func pick(rng *rand.Rand, pool []string, n int) []string {
@@ -93,6 +95,8 @@ func concretise(rng *rand.Rand, step int) *Conc {
 	c.M["nl"] = noLine
 	c.UnitKey = unitKeyPool[rng.Intn(len(unitKeyPool))]
 	c.UnitStr = unitKeyPool[rng.Intn(len(unitKeyPool))]
+	c.WithMapping = rng.Intn(2) == 0
+	c.SplitUnit = rng.Intn(2) == 0
 	c.StepSec = stepPool[rng.Intn(len(stepPool))]
 	start := day0 + 36000
 	c.B0 = (start + c.StepSec - 1) / c.StepSec * c.StepSec
@@ -146,10 +150,13 @@ func val(i, j, k int) int64 {
 	return v
 }
 
-// buildPprof turns the i-th abstract profile into a pprof profile.  The same function atom is realised by one or two pprof
-// Functions with the same Name and different ids and by shared or private Locations; sample / function / location order
-// is shuffled.  A sample flagged unit carries a numeric label with a unit; from the second profile on it also carries a
-// string label, so the string tables of the profiles of one database list the unit string at different indices.
+// buildPprof turns the i-th abstract profile into a pprof profile.  A function atom has two VARIANTS (two pprof Functions
+// with the same Name but different file / start line, two Locations with different address / line); what a variant looks
+// like depends on the atom only, so the same variant met in two profiles of a database is the same location to the
+// reader's merge (its samples collapse into one), while the other variant stays a sample of its own with the same stack
+// of function names.  Ids and the order of samples / functions / locations are random.  A sample flagged unit carries
+// a numeric label with a unit; with c.SplitUnit, from the second profile on, it also carries a string label, so that the
+// string tables of the profiles of one database list the unit string at different indices.
 func buildPprof(rng *rand.Rand, c *Conc, i int, p *Prof) *pprof.Profile {
 	out := &pprof.Profile{
 		PeriodType:    &pprof.ValueType{Type: c.s(p.Per[1]), Unit: c.s(p.Per[2])},
@@ -161,33 +168,34 @@ func buildPprof(rng *rand.Rand, c *Conc, i int, p *Prof) *pprof.Profile {
 		out.SampleType = append(out.SampleType, &pprof.ValueType{Type: c.s(t[0]), Unit: c.s(t[1])})
 	}
 	var mapping *pprof.Mapping
-	if rng.Intn(2) == 0 {
-		mapping = &pprof.Mapping{ID: 1, Start: 0x1000, Limit: 0x9000, File: "/bin/app", BuildID: "abc"}
+	if c.WithMapping {
+		mapping = &pprof.Mapping{ID: uint64(rng.Intn(3) + 1), Start: 0x1000, Limit: 0x9000, File: "/bin/app", BuildID: "abc"}
 		out.Mapping = append(out.Mapping, mapping)
 	}
 	fnID := uint64(rng.Intn(5) + 1)
 	locID := uint64(rng.Intn(5) + 1)
-	funcs := map[string][]*pprof.Function{}
-	locs := map[string][]*pprof.Location{}
-	newLoc := func(atom string) *pprof.Location {
-		l := &pprof.Location{ID: locID, Address: 0x1000 + locID*16}
+	funcs := map[string]*pprof.Function{}
+	locs := map[string]*pprof.Location{}
+	loc := func(atom string) *pprof.Location {
+		variant := rng.Intn(2)
+		k := fmt.Sprintf("%s/%d", atom, variant)
+		if l := locs[k]; l != nil {
+			return l
+		}
+		h := hash64(k)
+		l := &pprof.Location{ID: locID, Address: 0x1000 + (h%2048)*16, Mapping: mapping}
 		locID += uint64(rng.Intn(3) + 1)
-		if rng.Intn(2) == 0 {
-			l.Mapping = mapping
-		}
 		if c.s(atom) != noLine {
-			fs := funcs[atom]
-			if len(fs) == 0 || (len(fs) < 2 && rng.Intn(2) == 0) {
-				f := &pprof.Function{ID: fnID, Name: c.s(atom), SystemName: fmt.Sprintf("sys_%s_%d", atom, fnID),
-					Filename: fmt.Sprintf("/src/%s_%d.go", atom, len(fs)), StartLine: int64(rng.Intn(100))}
+			f := funcs[k]
+			if f == nil {
+				f = &pprof.Function{ID: fnID, Name: c.s(atom), SystemName: "sys_" + k, Filename: "/src/" + k + ".go", StartLine: int64(h % 97)}
 				fnID += uint64(rng.Intn(3) + 1)
-				funcs[atom] = append(funcs[atom], f)
+				funcs[k] = f
 				out.Function = append(out.Function, f)
-				fs = funcs[atom]
 			}
-			l.Line = []pprof.Line{{Function: fs[rng.Intn(len(fs))], Line: int64(rng.Intn(1000))}}
+			l.Line = []pprof.Line{{Function: f, Line: int64(h % 991)}}
 		}
-		locs[atom] = append(locs[atom], l)
+		locs[k] = l
 		out.Location = append(out.Location, l)
 		return l
 	}
@@ -197,21 +205,15 @@ func buildPprof(rng *rand.Rand, c *Conc, i int, p *Prof) *pprof.Profile {
 			smp.Value = append(smp.Value, val(i, j+1, k+1))
 		}
 		for _, atom := range s.Stack {
-			var l *pprof.Location
-			if ls := locs[atom]; len(ls) > 0 && rng.Intn(3) != 0 {
-				l = ls[rng.Intn(len(ls))]
-			} else {
-				l = newLoc(atom)
-			}
-			smp.Location = append(smp.Location, l)
+			smp.Location = append(smp.Location, loc(atom))
 		}
 		if s.Unit {
 			smp.NumLabel = map[string][]int64{c.UnitKey: {64}}
 			smp.NumUnit = map[string][]string{c.UnitKey: {c.UnitStr}}
-			if i > 1 {
+			if i > 1 && c.SplitUnit {
 				smp.Label = map[string][]string{fmt.Sprintf("thr%d", i): {fmt.Sprintf("t-%d", i)}}
 			}
-		} else if rng.Intn(4) == 0 {
+		} else if hash64(strings.Join(s.Stack, "/"))%3 == 0 {
 			smp.Label = map[string][]string{"thread": {"main"}}
 		}
 		out.Sample = append(out.Sample, smp)
@@ -230,6 +232,7 @@ type world struct {
 	both    int
 	verbose bool
 	nreq    int
+	probed  bool
 }
 
 var profTables = []string{"profiles", "profiles_series", "profiles_series_gin", "profiles_series_keys"}
@@ -307,6 +310,11 @@ func fromParam(rng *rand.Rand, ns int64) (int64, string) {
 	return f.div, f.name
 }
 
+// refused: the real route did not accept a well-formed profile
+type refused struct{ msg string }
+
+func (r *refused) Error() string { return r.msg }
+
 // push sends the i-th profile (1-based) through the real /ingest route and returns the length of the payload the writer stores.
 func (x *world) push(rng *rand.Rand, c *Conc, i int, p *Prof) error {
 	pp := buildPprof(rng, c, i, p)
@@ -377,7 +385,7 @@ func (x *world) push(rng *rand.Rand, c *Conc, i int, p *Prof) error {
 	x.res.Pushes["from_in_"+form]++
 	c.Pushes = append(c.Pushes, map[string]interface{}{"profile": i, "route": route, "name": name, "from": from, "until": until, "status": code})
 	if code != 200 {
-		return fmt.Errorf("/ingest (%s, name=%q from=%s) answered %d %s", route, name, from, code, resp)
+		return &refused{fmt.Sprintf("/ingest (%s, name=%q from=%s) answered %d %s", route, name, from, code, clip(resp, 300))}
 	}
 	return nil
 }
